@@ -4,3 +4,10 @@ From HS Require Import Guards QuorumWaiterDefs GenQW Tie_qw_loop.
 Open Scope N_scope.
 Check tie_qw_loop : forall stake quorum own acks, gen_qw stake quorum own acks = qw stake quorum own acks.
 Print Assumptions tie_qw_loop.
+From HS Require Import QuorumWaiter.
+Import ListNotations.
+Check c12_gen_first_quorum : forall (stake : N -> N) (quorum own : N) (acks : list N) (k : nat),
+  gen_qw stake quorum own acks = Some k <->
+  (k < length acks)%nat /\ quorum <= own + wsum stake (firstn (S k) acks) /\
+  forall j, (j < k)%nat -> own + wsum stake (firstn (S j) acks) < quorum.
+Print Assumptions c12_gen_first_quorum.
